@@ -47,6 +47,7 @@ pub struct Plan {
     pub exact: bool,
     pub track_survivors: bool,
     pub check_foreign: bool,
+    pub stop_on_finding: bool,
     pub trace: bool,
 }
 
@@ -61,6 +62,7 @@ impl Plan {
             exact: false,
             track_survivors: false,
             check_foreign: false,
+            stop_on_finding: true,
             trace: false,
         }
     }
@@ -270,6 +272,7 @@ pub fn begin_run(plan: &Plan, eval_id: u64, thread_id: usize, sched: Option<std:
         ctx.exact = plan.exact;
         ctx.track_survivors = plan.track_survivors;
         ctx.check_foreign = plan.check_foreign;
+        ctx.stop_on_finding = plan.stop_on_finding;
         ctx.trace = plan.trace;
         ctx.thread_id = thread_id;
         ctx.sched = sched;
